@@ -31,6 +31,8 @@ def srcdir(pid, m):
         return "/tmp/mut3-%s" % pid, "/tmp/mut3-%s/out/m1" % pid
     if m == "m5":
         return "/tmp/mut4-%s" % pid, "/tmp/mut4-%s/out/m1" % pid
+    if m == "m6":
+        return "/tmp/mut5-%s" % pid, "/tmp/mut5-%s/out/m1" % pid
     return "/tmp/mut-%s" % pid, "/tmp/mut-%s/out/%s" % (pid, m)
 
 def load(key):
